@@ -162,7 +162,7 @@ def gen():
     o = []
     o.append('(** GENERATED by tools/gen_tables.py from /repo/src on every run -- do not edit. *)')
     o.append('From Pakhi Require Import Base Float64 Syntax.')
-    o.append('Open Scope N_scope.')
+    o.append('Local Open Scope N_scope.')
     o.append('Definition keywords : list (text * tkind) :=\n  [' + ';\n   '.join('(%s, %s)' % (coq_text(k), kind(v)) for k, v in kws) + '].')
     o.append('Definition single_ops : list (N * tkind) :=\n  [' + '; '.join('(%d, %s)' % (ord(c), kind(k)) for c, k in single) + '].')
     o.append('Definition double_ops : list (N * (N * tkind * tkind)) :=\n  [' + '; '.join('(%d, (%d, %s, %s))' % (ord(c), ord(d), kind(k2), kind(k1)) for c, d, k2, k1 in double) + '].')
